@@ -141,8 +141,28 @@ var recurTitles = []string{"Overview", "Summary | notes", "Übersicht", "Usage",
 //     else under 1..9 blank rows and/or right of 1..6 blank columns, the blank rows in every spelling
 //     the writer has, with or without blank rows / cells after the table. Drawn from a fork of r taken
 //     before anything else, so the other decorations are what they were.
+//   - how the source declares what the rows and items refer to (from a second fork, so again nothing
+//     else moves): the column declaration of every table (Cols: exact in three spellings, absent, or
+//     naming fewer columns than the rows have cells) in ODT, DOCX, PPTX and HTML, and the spelling of a
+//     DOCX numbering.xml (NumSpelling: list blocks with a mixed bullet/decimal multilevel numbering of
+//     their own, <w:lvl> elements in ascending, descending or shuffled order, unused levels left out,
+//     abstractNumIds that are not the positions in the file).
 func decorateDoc(r *hx.Rng, d *Doc, format string) {
 	pr := r.Fork(0x706c616365)
+	sr := r.Fork(0x7370656c6c)
+	if format == "docx" {
+		d.Num = NumSpelling{Own: sr.Chance(2, 3), Order: sr.Intn(3), Sparse: sr.Chance(1, 3), IDs: sr.Intn(2), Perm: sr.U64()}
+	}
+	if format != "xlsx" {
+		for i := range d.Blocks {
+			if b := &d.Blocks[i]; b.Kind == "table" && sr.Chance(2, 3) {
+				b.Cols = Cols{Via: sr.Intn(ColsVias)}
+				if w := gridCols(b.Rows); w >= 2 {
+					b.Cols.Short = sr.Range(1, w-1)
+				}
+			}
+		}
+	}
 	if format == "xlsx" {
 		for i := range d.Blocks {
 			if b := &d.Blocks[i]; b.Kind == "table" && !pr.Chance(2, 5) {
@@ -417,6 +437,29 @@ func runDocument(c *hx.Ctx, idx int, format string, keep bool) {
 			nontrivial = true
 		}
 		c.Count(format + " block " + b.Kind)
+		if b.Kind == "table" && format != "xlsx" {
+			w := gridCols(b.Rows)
+			n, any := b.Cols.declared(w)
+			switch {
+			case !any:
+				c.Count(format + " table columns undeclared")
+			case n < w:
+				c.Count(format + " table columns declared < row width")
+			default:
+				c.Count(format + fmt.Sprintf(" table columns declared exactly via=%d", b.Cols.Via))
+			}
+		}
+		if b.Kind == "list" && format == "docx" {
+			if own, ok := ownAbstract(b.Items, false); ok && d.Num.Own {
+				mixed := false
+				for _, it := range b.Items {
+					mixed = mixed || it.Ordered != own.levels[0].ordered
+				}
+				c.Count(fmt.Sprintf("docx list own numbering mixed=%v lvl-order=%d sparse=%v ids=%d", mixed, d.Num.Order, d.Num.Sparse, d.Num.IDs))
+			} else {
+				c.Count(fmt.Sprintf("docx list shared numberings lvl-order=%d ids=%d", d.Num.Order, d.Num.IDs))
+			}
+		}
 		if format == "xlsx" {
 			c.Count(fmt.Sprintf("xlsx table blank rows above=%d", b.At.Row))
 			c.Count(fmt.Sprintf("xlsx table blank columns left=%d", b.At.Col))
